@@ -14,7 +14,7 @@ CLAUSES = {
     "C12": {"close_returns", "channels_closed", "input_accepts", "no_panic"},
     "C02": {"log_order", "success_offset_order"},
     "C04": {"success_offset_holds_message", "success_partition_is_chosen", "nothing_foreign_appended",
-            "wire_content_equals_submitted"},
+            "wire_content_equals_submitted", "wire_request_decodes"},
     "C05": {"no_duplicate_append", "success_in_log_exactly_once", "sequence_contiguous", "resend_identical",
             "nothing_foreign_appended"},
     "C16": {"max_messages", "max_message_bytes", "max_request_size", "oversize_rejected_not_sent",
